@@ -6,6 +6,7 @@ import (
 	"time"
 
 	appsv1 "k8s.io/api/apps/v1"
+	corev1 "k8s.io/api/core/v1"
 	metav1 "k8s.io/apimachinery/pkg/apis/meta/v1"
 	"k8s.io/apimachinery/pkg/runtime"
 	"k8s.io/client-go/kubernetes/fake"
@@ -87,8 +88,108 @@ func c19kRun(subjectReady bool, neighbour string, neighbourFirst bool, steps []t
 	return out
 }
 
+// c19kShards: the shards the coordinator gets for the subject StatefulSet "prom" (two pods), alone or next to a
+// second replica whose selector matches the same pods and whose name is "prom-b" (or "pro") - pods of the other
+// set are listed before or after the subject's own.
+func c19kShards(neighbour string, neighbourFirst bool) []string {
+	cli := fake.NewSimpleClientset()
+	mkSet := func(name string) {
+		st := c18Sts(name, 2, 0, [3]int32{2, 2, 2})
+		st.Spec.Selector = &metav1.LabelSelector{MatchLabels: map[string]string{"k8s-app": "prometheus"}}
+		if _, err := cli.AppsV1().StatefulSets(c18NS).Create(context.TODO(), st, metav1.CreateOptions{}); err != nil {
+			panic(err)
+		}
+	}
+	var own, other []corev1.Pod
+	mkPods := func(set string, ipBase int, into *[]corev1.Pod) {
+		for i := 0; i < 2; i++ {
+			p := corev1.Pod{}
+			p.Name, p.Namespace = fmt.Sprintf("%s-%d", set, i), c18NS
+			p.Labels = map[string]string{"k8s-app": "prometheus"}
+			p.Status.PodIP = fmt.Sprintf("10.0.%d.%d", ipBase, i+1)
+			p.Status.Conditions = []corev1.PodCondition{{Type: corev1.PodReady, Status: corev1.ConditionTrue}}
+			*into = append(*into, p)
+		}
+	}
+	mkSet("prom")
+	mkPods("prom", 1, &own)
+	if neighbour != "" {
+		mkSet(neighbour)
+		mkPods(neighbour, 9, &other)
+	}
+	cli.PrependReactor("list", "pods", func(action k8stesting.Action) (bool, runtime.Object, error) {
+		l := &corev1.PodList{}
+		if neighbourFirst {
+			l.Items = append(append(l.Items, other...), own...)
+		} else {
+			l.Items = append(append(l.Items, own...), other...)
+		}
+		return true, l, nil
+	})
+	cli.PrependReactor("list", "statefulsets", func(action k8stesting.Action) (bool, runtime.Object, error) {
+		l := &appsv1.StatefulSetList{}
+		for _, n := range []string{"pro", "prom", "prom-b"} {
+			o, err := cli.Tracker().Get(appsv1.SchemeGroupVersion.WithResource("statefulsets"), c18NS, n)
+			if err == nil {
+				l.Items = append(l.Items, *o.(*appsv1.StatefulSet))
+			}
+		}
+		return true, l, nil
+	})
+	rm := k8sshard.NewReplicasManager(cli, c18NS, "k8s-app=prometheus", 8080, false, c18Log())
+	ms, err := rm.Replicas()
+	if err != nil {
+		panic(err)
+	}
+	for _, m := range ms {
+		sh, err := m.Shards()
+		if err != nil {
+			return []string{"error: " + err.Error()}
+		}
+		// which set is this manager's? scale it to a marker and look
+		_ = m.ChangeScale(77)
+		g, _ := cli.AppsV1().StatefulSets(c18NS).Get(context.TODO(), "prom", metav1.GetOptions{})
+		if g.Spec.Replicas == nil || *g.Spec.Replicas != 77 {
+			continue
+		}
+		var out []string
+		for _, s := range sh {
+			var url string
+			s.APIGet = func(u string, ret interface{}) error { url = u; return fmt.Errorf("recorded") }
+			_, _ = s.RuntimeInfo()
+			out = append(out, fmt.Sprintf("%s ready=%v %s", s.ID, s.Ready, url))
+		}
+		return out
+	}
+	return []string{"the set was not handed out"}
+}
+
 func c19K8s(c *chk.Ctx, idx *int64) {
 	r := c.R
+	// the shards of a replica are its own pods whatever other replicas' pods the listing returns
+	{
+		*idx++
+		if c.Mine(*idx) {
+			alone := c19kShards("", false)
+			r.States++
+			for _, nb := range []string{"prom-b", "pro"} {
+				for _, first := range []bool{false, true} {
+					with := c19kShards(nb, first)
+					r.Transitions++
+					r.Nontrivial++
+					if chk.JSON(with) != chk.JSON(alone) {
+						pos := "after"
+						if first {
+							pos = "before"
+						}
+						d := fmt.Sprintf("StatefulSet prom alone has the shards %v; next to StatefulSet %s (same pod labels, its pods listed %s the own ones) it has %v", alone, nb, pos, with)
+						r.Violate("C19:replicas-manager:foreign-pods-as-shards", "independence", d, *idx,
+							&c19kReplay{Property: "C19", Clause: "independence", Subject: "prom", Neighbour: nb + " pods listed " + pos, Detail: d})
+					}
+				}
+			}
+		}
+	}
 	stepVals := []time.Duration{0, 61 * time.Second, 121 * time.Second}
 	var seqs [][]time.Duration
 	for _, a := range stepVals {
